@@ -167,6 +167,29 @@ func c20Op(a *c20Actor, kind int) [32]byte {
 		res, ck, ik, ak, aks := make([]byte, 8), make([]byte, 16), make([]byte, 16), make([]byte, 6), make([]byte, 6)
 		milenage.F2345(a.opc, a.k, rnd, res, ck, ik, ak, aks)
 		h.Write(bytes.Join([][]byte{macA, macS, res, ck, ik, ak, aks}, nil))
+		// the vector-level entry points as well: generation (now and then a call the library REFUSES first - a RES buffer
+		// that is too short - so that its error path runs next to other UEs' good calls), the UE-side check, resynchronisation
+		sqnNet, sqnUE, amf := rbytes(r, 6), rbytes(r, 6), []byte{0x80, 0}
+		autn, gIk, gCk, gAk, gRes := make([]byte, 16), make([]byte, 16), make([]byte, 16), make([]byte, 6), make([]byte, 8)
+		if r.Intn(6) == 0 {
+			short := uint(r.Intn(8))
+			func() {
+				defer func() { recover() }()
+				milenage.MilenageGenerate(a.opc, amf, a.k, sqnNet, rnd, make([]byte, 16), make([]byte, 16), make([]byte, 16), make([]byte, 6), make([]byte, 8), &short)
+			}()
+		}
+		rl := uint(8)
+		milenage.MilenageGenerate(a.opc, amf, a.k, sqnNet, rnd, autn, gIk, gCk, gAk, gRes, &rl)
+		cIk, cCk, cRes, auts := make([]byte, 16), make([]byte, 16), make([]byte, 8), make([]byte, 14)
+		crl := uint(0)
+		ret := milenage.Milenage_check(a.opc, a.k, sqnUE, rnd, autn, cIk, cCk, cRes, &crl, auts)
+		fmt.Fprint(h, rl, ret, crl)
+		h.Write(bytes.Join([][]byte{autn, gIk, gCk, gAk, gRes, cIk, cCk, cRes, auts}, nil))
+		if ret == -2 {
+			out := make([]byte, 6)
+			fmt.Fprint(h, milenage.Milenage_auts(a.opc, a.k, rnd, auts, out))
+			h.Write(out)
+		}
 	default:
 		c20OpExt(a, kind-c20BaseOps, h)
 	}
